@@ -202,7 +202,9 @@ def stepM (w : World) : MOp → World × List TEv
     -- the harness catches the error after the call and prints `lpcerr`, then the state of every user
     let e : List TEv := if r.2.2 then [] else [(k, Ev.lpcerr)]
     let sts := stepEach (fun _ => .showSt) (List.range w.length) r.1
-    (sts.1, r.2.1 ++ e ++ sts.2)
+    -- add_vmessage called by the harness: the text it is asked to format
+    let pre : List TEv := if v then [(k, Ev.vreq d)] else []
+    (sts.1, pre ++ r.2.1 ++ e ++ sts.2)
 
 def runM : World → List MOp → World × List TEv
   | w, [] => (w, [])
